@@ -94,6 +94,11 @@ theorem stopCall_ji (cfg : Cfg) (s : St) (err : Option GErr) (user : Bool) : JI 
   · left; rw [a]; split <;> rfl
   · exact Or.inr a
 
+theorem userStop_ji (cfg : Cfg) (s : St) : JI s (userStop cfg s) := by
+  rcases userStop_cases cfg s with ⟨hu, _, _⟩ | hu <;> rw [hu]
+  · exact JI_frame rfl
+  · exact stopCall_ji _ _ _ _
+
 theorem rejoinAfterError_ji (cfg : Cfg) (s : St) (e : GErr) : JI s (rejoinAfterError cfg s e) := by
   unfold rejoinAfterError
   simp only []
@@ -300,8 +305,14 @@ theorem step_xfer {s : St} (h : SInv s) (hd : DInv s) (hm : MInv s) (cfg : Cfg) 
       · exact xfer_not_mid _ _ _ (not_mid_of (by rw [a]; simp))
   | stop =>
     intro hns hj
-    have hj0 : midAll s.jpc := midAll_of_ji (stopCall_ji cfg s none true) hj
-    have es : (step cfg s .stop).1 = s := stopCall_ns (h.mid_noheld (midAll_midJoin hj0)) cfg none true hns
+    have hj0 : midAll s.jpc := midAll_of_ji (userStop_ji cfg s) hj
+    have es : (step cfg s .stop).1 = s := by
+      rcases userStop_cases cfg s with ⟨hu, _, _⟩ | hu
+      · show (userStop cfg s).1 = s
+        rw [hu]
+      · have hns' : (stopCall cfg s none true).1.stopping = false := by rw [← hu]; exact hns
+        show (userStop cfg s).1 = s
+        rw [hu]; exact stopCall_ns (h.mid_noheld (midAll_midJoin hj0)) cfg none true hns' 
     rw [es] at hns hj ⊢
     exact same .stop _ (fun _ _ _ _ x => by cases x) hns hj
   | coordDone r =>
